@@ -834,6 +834,16 @@ pub async fn wipeout(w: &mut World, m: &mut Mon, r: &mut R, g: usize, lender: us
     c.interest_rate_config.hundred_util_rate = u32::MAX;
     c.interest_rate_config.points = make_points(&[]);
     c.interest_rate_config.protocol_fixed_fee_apr = wi(0.5);
+    // a third of the rounds: no fees and no time, so that the bad debt equals the deposits exactly
+    // (the boundary between "partly socialised" and "wiped out")
+    let exact = r.gen_bool(0.33);
+    if exact {
+        c.interest_rate_config.protocol_fixed_fee_apr = wi(0.0);
+        c.interest_rate_config.protocol_ir_fee = wi(0.0);
+        c.interest_rate_config.insurance_fee_fixed_apr = wi(0.0);
+        c.interest_rate_config.insurance_ir_fee = wi(0.0);
+        c.interest_rate_config.protocol_origination_fee = wi(0.0);
+    }
     let now = w.chain.now();
     let db = w.add_bank_pyth(g, mint, c, PythPx::simple(1_000_000, -6, now)).await.ok()?;
     w.create_ata(w.fee_wallet.pubkey(), mint).await;
@@ -849,7 +859,9 @@ pub async fn wipeout(w: &mut World, m: &mut Mon, r: &mut R, g: usize, lender: us
     }
     let ca = pick(r, &cands);
     // a second, small borrower who will still owe when the bank is wiped out
-    let (small, sauth) = {
+    let small_borrower = if exact {
+        None
+    } else {
         let u2 = w.add_user(1u64 << 44).await;
         let a2 = w.add_account(g, u2).await;
         let k2 = w.auth_of(a2);
@@ -859,7 +871,7 @@ pub async fn wipeout(w: &mut World, m: &mut Mon, r: &mut R, g: usize, lender: us
         let i = w.ix_borrow(a2, db, k2.pubkey(), w.ta_of(a2, db), want);
         let o = w.exec(m, &[i], &[&k2]).await;
         m.r.count(if o.ok() { "scen.wipeout_second_borrower" } else { "scen.wipeout_second_borrower_failed" });
-        (a2, k2)
+        Some((a2, k2))
     };
     // borrower with plenty of collateral borrows everything
     let u = w.add_user(1u64 << 44).await;
@@ -880,11 +892,15 @@ pub async fn wipeout(w: &mut World, m: &mut Mon, r: &mut R, g: usize, lender: us
         m.r.count("scen.wipeout_not_reachable_low_borrow");
     }
     // time passes: debt grows faster than deposits (fees), then the collateral dies
-    w.chain.advance(pick(r, &[365i64 * 86_400, 3 * 365 * 86_400]));
-    w.refresh_oracles();
+    if !exact {
+        w.chain.advance(pick(r, &[365i64 * 86_400, 3 * 365 * 86_400]));
+        w.refresh_oracles();
+    } else {
+        m.r.count(if max == dep { "scen.wipeout_debt_equal_to_deposits" } else { "scen.wipeout_exact_round_without_full_borrow" });
+    }
     let saved_ca = save_price(w, ca);
     scale_price_any(w, ca, 1e-12).await;
-    if r.gen_bool(0.5) {
+    if !exact && r.gen_bool(0.5) {
         // the worthless collateral is seized completely, which leaves an account that owes and
         // holds nothing: its owner must not be able to close it (the debt would lose its record)
         let pos = {
@@ -953,7 +969,7 @@ pub async fn wipeout(w: &mut World, m: &mut Mon, r: &mut R, g: usize, lender: us
     let i = w.ix_repay(lender, db, lkp, lt, 5, None);
     let _ = w.exec(m, &[i], &[&lk]).await;
     // the other borrower still owes the dead bank: closing the balance must not drop the debt
-    {
+    if let Some((small, sauth)) = small_borrower {
         let sk = sauth.pubkey();
         let i = ix::close_balance(gk, w.accts[small].key, sk, w.banks[db].key);
         let o = w.exec(m, &[i], &[&sauth]).await;
